@@ -122,7 +122,7 @@ PLAIN = ['a', 'b', 'c', 'x', 'y', 'emp#no', 'v$name', 'x#1', 'foo', 'bar', 't1',
          'x_asc', 'my_desc', 'to_date_', 'left_x', 'usings', 'likely', 'betweenx', 'likes', 'overdue', 'current_x']
 TRICKY_PLAIN = ['date', 'text', 'user', 'name', 'type', 'value', 'count', 'key', 'level', 'data', 'int', 'year', 'role',
                 'public', 'comment', 'id', 'character', 'order_', 'select1']
-QUOTED_BODY = PLAIN + ['A b', 'select', 'from', 'x.y', 'a;b', 'q-1', ' lead', 'trail ', '1', "it's", 'AS', '*', 'é è']
+QUOTED_BODY = PLAIN + ['A b', 'select', 'from', 'x.y', 'a;b', 'q-1', ' lead', 'trail ', '1', "it's", 'AS', '*', 'é è', 'a""b', '""', 'x``y', 'p""']
 WS = [' ', ' ', ' ', '  ', '\t', '\n', ' \n ', '\r\n', '\t\t ']
 JOINS = ['JOIN', 'INNER JOIN', 'LEFT JOIN', 'LEFT OUTER JOIN', 'RIGHT JOIN', 'RIGHT OUTER JOIN', 'FULL JOIN',
          'FULL OUTER JOIN', 'CROSS JOIN', 'NATURAL JOIN']
@@ -150,6 +150,8 @@ def c12_instance(rng, tricky=0.1):
         else:
             body = rng.choice(QUOTED_BODY)
             if style == 'bt':
+                body = body if body == 'x``y' else body.replace('`', '')
+            elif '`' in body:
                 body = body.replace('`', '')
         return {'body': body, 'style': style}
     inst = {'name': part(), 'qualifier': part() if rng.random() < 0.5 else None,
